@@ -81,6 +81,12 @@ fn probe_one(m: &HistModel, st: &St, i: usize, proto: u16, id: u16, other_id: u1
         b.extend_from_slice(&alone);
         probes.push(("after-a-decodable-data-packet-in-the-buffer", b, true));
     }
+    // in the SAME packet behind a decodable data flowset / set: for a template this probe defines itself, and for
+    // the other id when the state can decode it
+    probes.push(("behind-decodable-data-in-the-same-packet", mk(&[("T", 904), ("D", 904), ("D", id)]), false));
+    if other_known {
+        probes.push(("behind-data-for-a-cached-id-in-the-same-packet", mk(&[("D", other_id), ("D", id)]), true));
+    }
     let allowed = m.is_allowed(i, proto);
     for (pos, bytes, pure_probe) in probes {
         let mut p = match m.rebuild(i, &st.enc[i]) {
@@ -107,7 +113,8 @@ fn probe_one(m: &HistModel, st: &St, i: usize, proto: u16, id: u16, other_id: u1
             match last {
                 Some(NetflowPacket::IPFix(x)) => {
                     let expect_before = match pos {
-                        "last-set" | "middle-set" => 1,
+                        "last-set" | "middle-set" | "behind-data-for-a-cached-id-in-the-same-packet" => 1,
+                        "behind-decodable-data-in-the-same-packet" => 2,
                         _ => 0,
                     };
                     let n_before = x.flowsets.iter().take_while(|s| s.header.header_id != id).count();
